@@ -14,7 +14,7 @@ from ..model_ac import ModelAC
 ID = "C07"
 LEVEL = "exploration"
 SHARDS = {"quick": 8, "thorough": 16}
-RULE = ("model-based histories against a model V3 device (configuration: max connection lifetime in {None, 30 s, 600 s}, which the application may set again to the same value at any point of the history; credentials, which begin with zero bytes, passed as bytes or as hex strings; the host's local time zone: UTC, or a zone whose daylight saving time ends or begins within the history); events "
+RULE = ("model-based histories against a model V3 device (configuration: max connection lifetime in {None, 30 s, 600 s, and fractional values 0.5 / 1.5 / 45.5 s}, which the application may set again to the same value at any point of the history; credentials, which begin with zero bytes, passed as bytes or as hex strings; the host's local time zone: UTC, or a zone whose daylight saving time ends or begins within the history); events "
         "from {send, send with the device silent, send answered by an error packet, send during which the peer closes, next "
         "connect refused, explicit authenticate with good credentials / bad token / bad key / while the device ignores handshakes / while the device refuses connections, a send whose handshake reply arrives damaged, sleep past 12 h, sleep past the "
         "connection lifetime, short sleep, two sends outstanding at once (the first answered after 0.3..1.9 s), cancel the running send/authenticate at a protocol phase}; up to 30 (quick) / 60 "
@@ -440,7 +440,7 @@ def run(ctx) -> None:
             ctx.check(case, lambda c: _run_one(ctx, c))
     # scripted histories that hit each expiry rule directly
     scripts = []
-    for lifetime in (None, 30, 600):
+    for lifetime in (None, 30, 600, 0.5, 1.5):
         for prefix in (["send"], ["send", "send_silent"], ["send", "auth_bad_key", "send"], ["send", "send_error"], ["send", "send_close"]):
             for tail in (["sleep_12h", 0], ["sleep_life", 0], ["sleep", 29.0], ["sleep", 31.0]):
                 scripts.append({"config": {"lifetime": lifetime, "hex": len(scripts) % 2 == 0}, "events": [["auth_good"]] + [[p] for p in prefix] + [tail, ["send"], ["send"]]})
@@ -479,6 +479,6 @@ def run(ctx) -> None:
     ctx.sweep("long sessions + scripted expiry histories", len(longs) + len(scripts), True)
     zones = st.sampled_from([{}, {}, {"tz": "CET-1CEST,M3.5.0,M10.5.0/3", "start": [2024, 10, 26, 20, 0]}, {"tz": "EST5EDT,M3.2.0,M11.1.0", "start": [2024, 11, 3, 2, 0]},
                              {"tz": "CET-1CEST,M3.5.0,M10.5.0/3", "start": [2024, 3, 30, 20, 0]}, {"tz": "NZST-12NZDT,M9.5.0,M4.1.0/3", "start": [2024, 4, 6, 6, 0]}])
-    cases = st.fixed_dictionaries({"config": st.tuples(st.fixed_dictionaries({"lifetime": st.sampled_from([None, 30, 600]), "hex": st.booleans()}), zones).map(lambda t: dict(t[0], **t[1])),
+    cases = st.fixed_dictionaries({"config": st.tuples(st.fixed_dictionaries({"lifetime": st.sampled_from([None, 30, 600, 600, 0.5, 1.5, 45.5]), "hex": st.booleans()}), zones).map(lambda t: dict(t[0], **t[1])),
                                    "events": events(30 if ctx.quick else 60)})
     ctx.hyp("histories", cases, lambda c: _run_one(ctx, c), ctx.n(3200, 200000))
